@@ -157,7 +157,8 @@ Definition sx_parse (s : str) : pres (sx * str) :=
 
 (* ace._sexpr_data: the (key, value) pairs of one answer line.  An IndexError
    of the parser (incomplete output) is caught and reported as an :error pair;
-   data that is not a pair ends the loop. *)
+   data that is not a pair with a string key ends the loop (repaired code,
+   F30: the key used to be asserted to be a string). *)
 Definition ERR_KEY : str := [58;101;114;114;111;114]%N.                       (* :error *)
 Definition ERR_VAL : str :=
   [105;110;99;111;109;112;108;101;116;101;32;111;117;116;112;117;116;32;102;114;111;109;32;65;67;69]%N.
@@ -188,7 +189,7 @@ Fixpoint sexpr_data (fuel : nat) (line : str) : pres (list (str * sx)) :=
                   | POk l => POk ((k, v) :: l)
                   | e => e
                   end
-              | Some _ => PFatal                                    (* assert isinstance(key, str) *)
+              | Some _ => POk []                                    (* logged, loop left *)
               end
           end
       end
